@@ -163,8 +163,8 @@ func runP1Big(args []string) error {
 			}
 			a.Others["readme.txt"] = []byte("bystander")
 			for i, n := range names { // siblings with derived names (temporary-file / backup conventions): Repair must leave them alone
-				if i < 4 {
-					a.Others[n+[]string{".tmp", "~", ".bak", ".new"}[i]] = []byte("sibling of " + n)
+				if sib := n + []string{".tmp", "~", ".bak", ".new"}[i%4]; i < 4 && !hasKey(prot, sib) {
+					a.Others[sib] = []byte("sibling of " + n)
 				}
 			}
 			for _, nme := range names {
